@@ -27,6 +27,8 @@ type stmtGate struct {
 	ctl      *sql.DB
 	Landed   bool // the writer ran
 	Closed   bool // position reached but the reader held the write lock
+	deny     bool // instead of a writer: the statement at the position is refused (a failing read)
+	Denied   bool
 }
 
 var (
@@ -51,6 +53,10 @@ func InstallStatementGate() {
 				if op == sqlite3.SQLITE_SELECT && gate.armed && !gate.inWriter {
 					gate.seen++
 					if gate.seen == gate.at {
+						if gate.deny {
+							gate.Denied = true
+							return sqlite3.SQLITE_DENY // the statement does not compile: "not authorized" (a read that fails)
+						}
 						gate.fire()
 					}
 				}
@@ -93,4 +99,24 @@ func (n *Node) ReadWithWriterAt(at int, writer func(), read func()) (positions i
 	read()
 	gate.armed = false
 	return gate.seen, gate.Landed, gate.Closed
+}
+
+// GateReadFailsAt arms the gate process-wide in "failing read" mode: the at-th SELECT compiled from now on is refused by the
+// authorizer (the call that issued it gets an error that is neither sql.ErrNoRows nor a context error, like a disk or busy
+// error). The returned function disarms the gate and reports how many SELECTs were compiled and whether the fault fired.
+// at = 0 only counts. For stores that are not storekit nodes (the aggsender's certificate database).
+func GateReadFailsAt(at int) (disarm func() (positions int, fired bool)) {
+	gate = stmtGate{armed: true, at: at, deny: true}
+	return func() (int, bool) {
+		n, f := gate.seen, gate.Denied
+		gate = stmtGate{}
+		return n, f
+	}
+}
+
+// ReadFailsAt runs read() with the at-th SELECT it compiles refused.
+func (n *Node) ReadFailsAt(at int, read func()) (positions int, fired bool) {
+	disarm := GateReadFailsAt(at)
+	read()
+	return disarm()
 }
